@@ -3,11 +3,11 @@
 (* history of operations of the family's alphabet up to the bound, applying Container's   *)
 (* Apply; a state at the bound is printed with the results and the heap the specification *)
 (* demands and replayed on the generated container linked with the real runtime library.  *)
-EXTENDS Container, Merge, API, Json
+EXTENDS Container, Merge, API, Imports, Json
 
 CONSTANTS Family, MaxHist
-VARIABLES cfg0, files0, st, hist
-vars == <<cfg0, files0, st, hist>>
+VARIABLES cfg0, files0, st, hist, aux
+vars == <<cfg0, files0, st, hist, aux>>
 
 Fx == <<[n |-> "fx", v |-> "probe.test/fx"]>>
 Fns == <<[n |-> "fn", v |-> "fx.Fn"], [n |-> "fnInt", v |-> "fx.FnInt"], [n |-> "fnE", v |-> "fx.FnE"]>>
@@ -233,12 +233,97 @@ LitCfgs == {LitCfg(i, m) : i \in 1..Len(LitKindsAll), m \in BOOLEAN}
 LitScript == <<OpGetParam("p1"), OpGetParam("p2"), OpGetParam("p3"), OpGet("s1")>>
 
 -----------------------------------------------------------------------------
+(* Family "forms" (C01): every documented syntax form of constructor, value and type,      *)
+(* local / aliased / quoted / full path / ".", with a typed getter; with and without a      *)
+(* parameters section; built-in functions used directly in service arguments.              *)
+CtorForms  == {"NewA", "fx.NewA", "\"probe.test/fx\".NewA", "probe.test/fx.NewA", "\".\".NewA"}
+ValueForms == {"Var", "fx.Var", "\".\".Var", "\"probe.test/fx\".Var", "probe.test/fx.Var", "\"probe.test/fx\".Holder.Field",
+               "&S{}", "&fx.S{}", "&\"probe.test/fx\".S{}", "&\".\".S{}", "S{}", "fx.S{}", "\".\".S{}"}
+PtrTypes   == {Unset, "*T", "*fx.T", "*\"probe.test/fx\".T", "*\".\".T", "*probe.test/fx.T"}
+ValTypes   == {Unset, "T", "fx.T", "\"probe.test/fx\".T", "\".\".T"}
+IsValForm(x) == x \in {"S{}", "fx.S{}", "\".\".S{}"}
+BuiltinArgs == <<APat(<<CFn("env", "\"VERIF_UNSET\", \"dflt\"")>>), APat(<<CFn("envInt", "\"VERIF_UNSET\", 77")>>),
+                 APat(<<CText("n="), CFn("envInt", "\"VERIF_UNSET\", 77"), CPct>>)>>
+FormCfg(svc, withParams, builtin) ==
+  [EmptyCfg EXCEPT !.meta = BaseMeta,
+     !.params = IF withParams THEN ("p1" :> ALit("int", "5")) ELSE <<>>,
+     !.services = ("s1" :> [svc EXCEPT !.getter = "GetS1"]
+                   @@ "s2" :> CtorSvc("fx.NewB", IF builtin THEN BuiltinArgs ELSE <<>>))]
+FormCfgs ==
+     {FormCfg([CtorSvc(c, <<>>) EXCEPT !.type = t], wp, b) : c \in CtorForms, t \in PtrTypes, wp \in BOOLEAN, b \in BOOLEAN}
+\cup {FormCfg([EmptySvc EXCEPT !.value = x, !.type = t], wp, TRUE) :
+          x \in {y \in ValueForms : ~IsValForm(y)}, t \in PtrTypes, wp \in BOOLEAN}
+\cup {FormCfg([EmptySvc EXCEPT !.value = x, !.type = t], TRUE, FALSE) : x \in {y \in ValueForms : IsValForm(y)}, t \in ValTypes}
+\cup {FormCfg([EmptySvc EXCEPT !.type = t], FALSE, TRUE) : t \in (PtrTypes \cup ValTypes) \ {Unset}}
+FormScript == <<OpGet("s1"), OpGetter("GetS1"), OpGet("s2")>>
+
+-----------------------------------------------------------------------------
+(* Family "imports" (C14): alias tables x reference forms.  The fixture universe offers    *)
+(* identical self-identifying symbols at several import paths (prefix-related paths, equal *)
+(* last elements, characters illegal in identifiers, a foreign module).                    *)
+UniverseSeq == << <<"probe.test", "fx">>, <<"probe.test", "fy">>, <<"probe.test", "p">>, <<"probe.test", "pq">>,
+                  <<"probe.test", "p", "q">>, <<"probe.test", "x", "p">>, <<"probe.test", "we-ird.v2">>,
+                  <<"a.test", "p">>, <<"a.test", "p", "q">>, <<"ab.test", "p">>, <<"probe.test", "x", "p", "p">> >>
+Universe == {UniverseSeq[i] : i \in 1..Len(UniverseSeq)}
+UIndex(pkg) == CHOOSE i \in 1..Len(UniverseSeq) : UniverseSeq[i] = pkg
+AliasEntry(n, segs) == [n |-> n, segs |-> segs]
+AliasCandidates ==
+  { AliasEntry("a", <<"probe.test", "p">>), AliasEntry("ab", <<"probe.test", "pq">>), AliasEntry("p", <<"probe.test", "x", "p">>),
+    AliasEntry("probe.test", <<"a.test">>), AliasEntry("os", <<"probe.test", "fx">>), AliasEntry("fmt", <<"probe.test", "fy">>),
+    AliasEntry("w", <<"probe.test", "we-ird.v2">>), AliasEntry("fx", <<"probe.test", "fx">>), AliasEntry("a.test", <<"probe.test", "p">>),
+    AliasEntry("errors", <<"probe.test", "fy">>), AliasEntry("github.com", <<"probe.test", "fx">>), AliasEntry("st", <<"probe.test", "pq">>),
+    AliasEntry("context", <<"probe.test", "p">>), AliasEntry("reflect", <<"probe.test", "fx">>) }
+RefSegs == { <<"a">>, <<"ab">>, <<"a", "q">>, <<"p">>, <<"probe.test", "p">>, <<"probe.test", "pq">>, <<"probe.test", "p", "q">>,
+             <<"probe.test", "x", "p">>, <<"os">>, <<"fmt">>, <<"w">>, <<"probe.test", "we-ird.v2">>, <<"fx">>, <<"a.test", "p">>,
+             <<"ab.test", "p">>, <<"a.test", "q">>, <<"probe.test", "fx">>, <<"st">>, <<"p", "p">> }
+RefImports == {INone, IDot} \cup {IPath(sg, q) : sg \in RefSegs, q \in BOOLEAN}
+AliasByName(n) == CHOOSE e \in AliasCandidates : e.n = n
+PairNames == { <<"a", "ab">>, <<"ab", "a">>, <<"a", "a.test">>, <<"p", "probe.test">>, <<"os", "fmt">>, <<"fx", "os">>, <<"st", "a">>,
+               <<"probe.test", "a.test">>, <<"github.com", "fx">>, <<"errors", "context">>, <<"reflect", "w">> }
+TableSeqs(k) == {<<>>} \cup {<<e>> : e \in AliasCandidates}
+                \cup (IF k >= 2 THEN {<<AliasByName(pn[1]), AliasByName(pn[2])>> : pn \in PairNames} ELSE {})
+Exists(tbl, i) == Resolve(tbl, i) \in Universe \cup {Cur}
+
+ImportCfg(tbl, r1, r2, typed) ==
+  [EmptyCfg EXCEPT
+     !.meta = [EmptyMeta EXCEPT !.imports = [j \in 1..Len(tbl) |-> [n |-> tbl[j].n, v |-> PathText(tbl[j].segs)]],
+                                !.functions = <<[n |-> "fn", v |-> RefText(r2, "Fn")]>>],
+     !.params = ("p1" :> APat(<<CFn("fn", "")>>)),
+     !.services = (   "s1" :> [CtorSvc(RefText(r1, "NewA"), <<AValue(RefText(r2, "Var")), ARef("p1")>>) EXCEPT
+                                 !.getter = IF typed THEN "GetS1" ELSE Unset,
+                                 !.type = IF typed THEN "*" \o RefText(r1, "T") ELSE Unset]     \* untyped: a --stub build uses no user package at all
+                   @@ "s2" :> [EmptySvc EXCEPT !.value = RefText(r2, "Var"), !.tags = <<Tag("t1", 0)>>]
+                   @@ "s3" :> [EmptySvc EXCEPT !.value = "&" \o RefText(r1, "S") \o "{}"]),
+     !.decorators = <<Dec("t1", RefText(r1, "Decorate"), <<>>)>>]
+
+GlobalIdOf(pkg) == IF pkg = Cur THEN 3 ELSE Len(Globals) + UIndex(pkg)
+ImportEnv(tbl, r1, r2) ==
+  LET p1 == Resolve(tbl, r1)  p2 == Resolve(tbl, r2) IN
+  [syms |-> (RefText(r1, "NewA") :> [made |-> MadeOf(p1, "NewA"), kind |-> "ptr"]
+             @@ RefText(r1, "Decorate") :> [made |-> MadeOf(p1, "Decorate"), kind |-> "dec"]),
+   vals |-> (RefText(r2, "Var") :> [kind |-> "global", id |-> GlobalIdOf(p2)]
+             @@ ("&" \o RefText(r1, "S") \o "{}") :> [kind |-> "newptr", id |-> 0]),
+   fns  |-> ("fn" :> [made |-> MadeOf(p2, "Fn"), kind |-> "str"]),
+   globals |-> [i \in 1..Len(UniverseSeq) |-> Body(MadeOf(UniverseSeq[i], "Var"), <<>>)]]
+ImportAux(tbl, r1, r2) ==
+  [used |-> {PathText(x) : x \in {Resolve(tbl, r1), Resolve(tbl, r2)} \ {Cur}},
+   table |-> tbl, r1 |-> ImportText(r1), r2 |-> ImportText(r2)]
+ImportTriples ==
+  {t \in TableSeqs(IF Family = "importsq" THEN 1 ELSE 2) \X RefImports \X RefImports :
+      /\ TableWellFormed(t[1]) /\ Exists(t[1], t[2]) /\ Exists(t[1], t[3])
+      /\ (TRUE => t[3] \in {t[2], INone, IDot, IPath(<<"a", "q">>, FALSE), IPath(<<"probe.test", "fx">>, TRUE), IPath(<<"probe.test", "x", "p">>, FALSE), IPath(<<"ab.test", "p">>, TRUE)})}
+ImportQuads == {<<t[1], t[2], t[3], TRUE>> : t \in ImportTriples}
+               \cup {<<t[1], t[2], t[3], FALSE>> : t \in {x \in ImportTriples : x[1] = <<>> /\ x[2].k = "path" /\ x[3].k = "path"}}
+ImportScript == <<OpGet("s1"), OpGet("s2"), OpGetParam("p1"), OpGet("s3")>> \o (IF IsSet(cfg0.services["s1"].getter) THEN <<OpGetter("GetS1")>> ELSE <<>>)
+
+-----------------------------------------------------------------------------
 Configs ==
   CASE Family = "build"  -> {BuildCfg(v) : v \in {x \in PairVectors : LegalVec(x) /\ Determined(x)}}
     [] Family = "scope2" -> ScopeCfgs({"s1", "s2"})
     [] Family = "scope3" -> ScopeCfgs({"s1", "s2", "s3"})
     [] Family = "todo"   -> TodoCfgs
     [] Family = "lits"   -> LitCfgs
+    [] Family = "forms"  -> FormCfgs
     [] Family \in {"api", "apiq"} -> ApiCfgs
     [] OTHER -> {}
 
@@ -246,11 +331,14 @@ NoFl == [ignoreP |-> FALSE, ignoreS |-> FALSE]
 FileSets ==
   CASE Family \in {"tags", "tagsq"} -> {f \in TagFileSets : OutputAccepted(MergeAll(f), NoFl)}
     [] OTHER -> {<<c>> : c \in Configs}
+IsImports == Family \in {"imports", "importsq"}
 
-Scripted == Family \in {"build", "tags", "tagsq", "api", "apiq", "lits"}
+Scripted == Family \in {"build", "tags", "tagsq", "api", "apiq", "lits", "forms", "imports", "importsq"}
 Script == IF Family = "build" THEN BuildScript
           ELSE IF Family \in {"api", "apiq"} THEN (IF APIAccepted(cfg0) THEN ApiScript(cfg0) ELSE <<>>)
           ELSE IF Family = "lits" THEN LitScript
+          ELSE IF Family = "forms" THEN FormScript
+          ELSE IF IsImports THEN ImportScript
           ELSE TagScript
 Alphabet(c) ==
   CASE Family = "scope2" -> ScopeOps({"s1", "s2"})
@@ -260,17 +348,23 @@ Alphabet(c) ==
 
 Bound == IF Scripted THEN Len(Script) ELSE MaxHist
 
-Init == \E f \in FileSets : files0 = f /\ cfg0 = MergeAll(f) /\ st = NewState(MergeAll(f)) /\ hist = <<>>
+Init ==
+  IF IsImports
+  THEN \E t \in ImportQuads :
+          /\ files0 = <<ImportCfg(t[1], t[2], t[3], t[4])>> /\ cfg0 = ImportCfg(t[1], t[2], t[3], t[4])
+          /\ st = NewStateEnv(ImportCfg(t[1], t[2], t[3], t[4]), ImportEnv(t[1], t[2], t[3]))
+          /\ hist = <<>> /\ aux = ImportAux(t[1], t[2], t[3])
+  ELSE \E f \in FileSets : files0 = f /\ cfg0 = MergeAll(f) /\ st = NewState(MergeAll(f)) /\ hist = <<>> /\ aux = <<>>
 
 Do(o) == LET r == Apply(st, o) IN
          /\ st' = r.st
          /\ hist' = Append(hist, [op |-> o, ok |-> r.ok, v |-> r.v, err |-> r.err])
-         /\ UNCHANGED <<cfg0, files0>>
+         /\ UNCHANGED <<cfg0, files0, aux>>
 
 Next == /\ Len(hist) < Bound
         /\ IF Scripted THEN Do(Script[Len(hist) + 1]) ELSE \E o \in Alphabet(cfg0) : Do(o)
 
-Emit == Len(hist) = Bound => PrintT(<<"ST", ToJson([cfg |-> cfg0, files |-> files0, api |-> [accept |-> APIAccepted(cfg0), violations |-> GetterViolations(cfg0), methods |-> GetterMethods(cfg0), names |-> Names(cfg0)], hist |-> hist, heap |-> st.heap, cnt |-> st.cnt])>>)
+Emit == Len(hist) = Bound => PrintT(<<"ST", ToJson([cfg |-> cfg0, files |-> files0, aux |-> aux, api |-> (IF Family \in {"api", "apiq"} THEN [accept |-> APIAccepted(cfg0), violations |-> GetterViolations(cfg0), methods |-> GetterMethods(cfg0), names |-> Names(cfg0)] ELSE <<>>), hist |-> hist, heap |-> st.heap, cnt |-> st.cnt])>>)
 
 -----------------------------------------------------------------------------
 (* R1: design-level invariants of the run-time semantics.                                *)
